@@ -55,6 +55,14 @@ type verifC08Pay struct {
 	htlc     *lnwire.UpdateAddHTLC
 	firstHop lnwire.ShortChannelID
 
+	// saturation phase (see verifC08Sat): Sat is "filler" or "burst";
+	// satRejected: the first attempt failed while the outgoing commitment
+	// was saturated; retries: later attempts (new attempt ids) at the same
+	// invoice, as a retrying sender makes them
+	Sat         string
+	satRejected bool
+	retries     []*verifC08Pay
+
 	mu       sync.Mutex
 	awaitGen int // generation of the network the newest result waiter is attached to
 	sent     bool
@@ -86,6 +94,14 @@ type verifC08Mon struct {
 	downResolved map[lntypes.Hash]string      // a fulfill/fail for Bob's outgoing HTLC arrived at Bob
 	upSeen       map[verifC08Key]map[string]int
 	upSeenEpoch  map[verifC08Key]map[int]int
+	// order of events per payment hash (seq counts monitor events): the last
+	// arrival at Bob of an incoming add for the hash, and the last settle or
+	// fail Bob sent upstream for an incoming HTLC of the hash (with the
+	// connection epoch it was observed in)
+	seq        int64
+	inAddSeq   map[lntypes.Hash]int64
+	upResSeq   map[lntypes.Hash]int64
+	upResEpoch map[lntypes.Hash]int
 
 	bobDB      *channeldb.DB
 	chanPtAB   func() *channeldb.OpenChannel
@@ -99,7 +115,7 @@ type verifC08Mon struct {
 }
 
 func (m *verifC08Mon) logf(f string, a ...any) {
-	if len(m.trace) < 600 {
+	if len(m.trace) < 1000 {
 		m.trace = append(m.trace, fmt.Sprintf(f, a...))
 	}
 }
@@ -139,6 +155,8 @@ func (m *verifC08Mon) atBob(msg lnwire.Message) {
 	case *lnwire.UpdateAddHTLC:
 		m.incomingAdds[verifC08Key{x.ChanID, x.ID}] = lntypes.Hash(x.PaymentHash)
 		m.everAtBob[lntypes.Hash(x.PaymentHash)] = true
+		m.seq++
+		m.inAddSeq[lntypes.Hash(x.PaymentHash)] = m.seq
 		m.logf("e%d ->B add chan=%x id=%d hash=%x", m.epoch, x.ChanID[:3], x.ID, x.PaymentHash[:4])
 	case *lnwire.UpdateFulfillHTLC:
 		h := lntypes.Hash(sha256.Sum256(x.PaymentPreimage[:]))
@@ -180,6 +198,7 @@ func (m *verifC08Mon) atEdge(who string, msg lnwire.Message) {
 	switch x := msg.(type) {
 	case *lnwire.UpdateAddHTLC:
 		m.bobOutAdds[verifC08Key{x.ChanID, x.ID}] = lntypes.Hash(x.PaymentHash)
+		m.outgoingAdd(who, x)
 		return
 	case *lnwire.UpdateFulfillHTLC:
 		key, kind = verifC08Key{x.ChanID, x.ID}, "settle"
@@ -203,6 +222,8 @@ func (m *verifC08Mon) atEdge(who string, msg lnwire.Message) {
 	p := m.byHash[hash]
 	m.logf("e%d B->%s %s chan=%x id=%d hash=%x", m.epoch, who, kind, key.Chan[:3], key.ID, hash[:4])
 	m.vc.Count("oracle_upstream_resolution", 1)
+	m.seq++
+	m.upResSeq[inHash], m.upResEpoch[inHash] = m.seq, m.epoch
 
 	// at most one settle-or-fail per incoming HTLC
 	if m.upSeen[key] == nil {
@@ -261,6 +282,88 @@ func (m *verifC08Mon) atEdge(who string, msg lnwire.Message) {
 					p.Idx, p.Dir, p.Kind, where), m.witness())
 		}
 	}
+}
+
+// verifC08IncomingLive: an incoming HTLC with this hash is in at least one of
+// the commitments of the on-disk channel state (local, remote, pending
+// remote), i.e. it is not irrevocably removed. An HTLC that is locked in and
+// not yet resolved is in the local commitment until the very end of its
+// removal, and the local and remote commitment are read in one transaction.
+func verifC08IncomingLive(ch *channeldb.OpenChannel, hash lntypes.Hash) bool {
+	has := func(hs []channeldb.HTLC) bool {
+		for _, h := range hs {
+			if h.Incoming && h.RHash == [32]byte(hash) {
+				return true
+			}
+		}
+		return false
+	}
+	if has(ch.LocalCommitment.Htlcs) || has(ch.RemoteCommitment.Htlcs) {
+		return true
+	}
+	if tip, err := ch.RemoteCommitChainTip(); err == nil && tip != nil {
+		return has(tip.Commitment.Htlcs)
+	}
+	return false
+}
+
+// outgoingAdd judges an update_add Bob sent on the outgoing channel of a
+// forwarded payment (called with mu held, when the add arrives at the edge
+// node). Converse of "the incoming HTLC is failed back only once the outgoing
+// HTLC was irrevocably removed or never committed": once Bob has resolved the
+// incoming HTLC upstream and it is gone from all of his upstream commitments,
+// he must never offer the outgoing HTLC (again). Legitimate and not flagged:
+// the first forward (the incoming HTLC is locked in first), and every replay
+// after a restart of an add whose incoming HTLC is still pending (also one for
+// which a fail was sent on an earlier connection and never got committed).
+//
+// The verdict needs all of:
+//   - Bob sent a settle/fail upstream for an incoming HTLC of this hash, seen
+//     in an EARLIER connection epoch (messages of an older connection are
+//     never delivered in a newer one, so the add judged here was sent after
+//     that epoch ended);
+//   - no incoming add for the hash arrived at Bob after that resolution (a
+//     retried payment has a new, live incoming HTLC of its own);
+//   - read now from Bob's on-disk upstream channel (fresh FetchChannel): no
+//     incoming HTLC with the hash in any commitment. Without a newer incoming
+//     add the hash cannot come back, so it was gone when the add was sent,
+//     unless a replayed pending HTLC was resolved and removed again between
+//     Bob's send and this observation - which needs an answer of the peer
+//     that receives the add only after this observation.
+func (m *verifC08Mon) outgoingAdd(who string, x *lnwire.UpdateAddHTLC) {
+	h := lntypes.Hash(x.PaymentHash)
+	p := m.byHash[h]
+	if p == nil || !p.forwarded() {
+		return
+	}
+	down, fetch := m.chanBC, m.fetchBobAB
+	if p.Dir == "CA" {
+		down, fetch = m.chanAB, m.fetchBobBC
+	}
+	if x.ChanID != down {
+		return
+	}
+	m.logf("e%d B->%s add chan=%x id=%d hash=%x", m.epoch, who, x.ChanID[:3], x.ID, h[:4])
+	m.vc.Count("oracle_outgoing_add_has_live_incoming", 1)
+	resSeq, resolved := m.upResSeq[h]
+	if !resolved || m.upResEpoch[h] >= m.epoch || m.inAddSeq[h] > resSeq {
+		return
+	}
+	// an add for a hash whose incoming HTLC Bob resolved upstream on an
+	// earlier connection: a replay; its incoming HTLC must still be pending
+	m.vc.Count("outgoing_add_replayed_after_upstream_resolution", 1)
+	ch, err := fetch()
+	if err != nil {
+		m.vc.Diag("fetch_bob_channel_failed", err.Error())
+		return
+	}
+	if verifC08IncomingLive(ch, h) {
+		return
+	}
+	m.vc.Violation("outgoing_add_without_live_incoming", p.Dir,
+		fmt.Sprintf("forwarder offered an outgoing HTLC (payment %d %s kind %s) although the incoming HTLC was resolved upstream on an "+
+			"earlier connection and is in none of the forwarder's on-disk upstream commitments any more (no newer incoming add for the hash)",
+			p.Idx, p.Dir, p.Kind), m.witness())
 }
 
 // ---------------------------------------------------------------------------
@@ -533,6 +636,46 @@ type verifC08Stores struct {
 	signers  [3]input.Signer
 	pools    [3]*lnwallet.SigPool
 	chanOpts []lnwallet.ChannelOpt
+	sat      *verifC08Sat // saturation case: small limits on one channel
+}
+
+// verifC08Sat describes the saturation phase of a case: the channel that is
+// the forwarder's OUTGOING channel for payments in direction Dir gets a small
+// limit (number of accepted HTLCs, or value in flight); Fillers hold-invoice
+// payments in that direction take the limit up, then Burst further payments
+// are forwarded by Bob's switch (policy, expiry and bandwidth are fine) and
+// rejected by his outgoing LINK (lnwallet refuses the add); then the held
+// payments are settled/cancelled, and the case goes on with its ordinary
+// payments and fault plan. After the faults the rejected invoices are paid
+// again with new attempt ids.
+type verifC08Sat struct {
+	Dir        string // "AC": B-C is saturated, "CA": A-B
+	Mode       string // "slots" or "amount"
+	Slots      uint16
+	MaxPending lnwire.MilliSatoshi
+	FillSat    int64 // amount of one filler, satoshi
+	Fillers    int
+	Burst      int
+	WaitIdle   bool // wait for quiescence before the ordinary phase begins
+}
+
+// applyLimits sets the limits of a saturation case on a channel end's state.
+// createTestChannel hard-codes the bounds (50 HTLCs, the capacity); lnwallet
+// reads them from the channel state whenever it validates an update, so they
+// are set on the state objects the fixture created and on every state that is
+// reloaded from disk (all reloads go through loadChan). Both configs of both
+// ends get the same value, as after a negotiation.
+func (s *verifC08Stores) applyLimits(end int, oc *channeldb.OpenChannel) {
+	if s.sat == nil || (s.sat.Dir == "AC") != (end >= 2) {
+		return
+	}
+	for _, cfg := range []*channeldb.ChannelConfig{&oc.LocalChanCfg, &oc.RemoteChanCfg} {
+		if s.sat.Mode == "slots" {
+			cfg.MaxAcceptedHtlcs = s.sat.Slots
+		} else {
+			cfg.MaxPendingAmount = s.sat.MaxPending
+		}
+	}
 }
 
 var verifC08NodeOfEnd = [4]int{0, 1, 1, 2}
@@ -544,6 +687,7 @@ func (s *verifC08Stores) loadChan(end int) (*lnwallet.LightningChannel, error) {
 	if err != nil {
 		return nil, fmt.Errorf("fetch channel end %d: %w", end, err)
 	}
+	s.applyLimits(end, st)
 	return lnwallet.NewLightningChannel(s.signers[node], st, s.pools[node], s.chanOpts...)
 }
 
@@ -622,6 +766,9 @@ type verifC08MonState struct {
 	downResolved map[lntypes.Hash]string
 	upSeen       map[verifC08Key]map[string]int
 	upSeenEpoch  map[verifC08Key]map[int]int
+	inAddSeq     map[lntypes.Hash]int64
+	upResSeq     map[lntypes.Hash]int64
+	upResEpoch   map[lntypes.Hash]int
 	traceLen     int
 }
 
@@ -643,6 +790,9 @@ func (m *verifC08Mon) cloneState() verifC08MonState {
 		downResolved: verifC08CloneMap(m.downResolved),
 		upSeen:       map[verifC08Key]map[string]int{},
 		upSeenEpoch:  map[verifC08Key]map[int]int{},
+		inAddSeq:     verifC08CloneMap(m.inAddSeq),
+		upResSeq:     verifC08CloneMap(m.upResSeq),
+		upResEpoch:   verifC08CloneMap(m.upResEpoch),
 		traceLen:     len(m.trace),
 	}
 	for k, v := range m.upSeen {
@@ -762,6 +912,7 @@ func (v *verifC08Net) bootFromCut(t *testing.T, snap *verifC08PLSnap) ([3]*mockI
 	m.incomingAdds, m.downFulfill, m.everAtBob = snap.mon.incomingAdds, snap.mon.downFulfill, snap.mon.everAtBob
 	m.bobOutAdds, m.downResolved = snap.mon.bobOutAdds, snap.mon.downResolved
 	m.upSeen, m.upSeenEpoch = snap.mon.upSeen, snap.mon.upSeenEpoch
+	m.inAddSeq, m.upResSeq, m.upResEpoch = snap.mon.inAddSeq, snap.mon.upResSeq, snap.mon.upResEpoch
 	m.logf("=== POWER LOSS BOOT: monitor tables rolled back to the cut (trace entry %d)", snap.mon.traceLen)
 	m.mu.Unlock()
 	return regs, caches, nil
@@ -925,7 +1076,7 @@ func (v *verifC08Net) install(t *testing.T) {
 // functions, so that a single channel can be reloaded while the links of the
 // other one keep running (reloading a channel whose link is live would read
 // its commit chain tip and pending updates in separate transactions).
-func verifC08Cluster(t *testing.T, capSat btcutil.Amount) (*clusterChannels, [4]*testLightningChannel, *verifC08Stores, error) {
+func verifC08Cluster(t *testing.T, capSat btcutil.Amount, sat *verifC08Sat) (*clusterChannels, [4]*testLightningChannel, *verifC08Stores, error) {
 	var none [4]*testLightningChannel
 	_, _, firstChanID, secondChanID := genIDs()
 	a, b1, err := createTestChannel(t, alicePrivKey, bobPrivKey, capSat, capSat, 0, 0, firstChanID)
@@ -961,7 +1112,7 @@ func verifC08Cluster(t *testing.T, capSat btcutil.Amount) (*clusterChannels, [4]
 	// open bbolt file, a second channeldb.DB on the wrapped backend); the
 	// channels, and through newThreeHopNetwork the switches, use that one.
 	// The invoice registries get databases of their own, wrapped as well.
-	stores := &verifC08Stores{cut: &verifC08Cut{}}
+	stores := &verifC08Stores{cut: &verifC08Cut{}, sat: sat}
 	for node, tc := range []*testLightningChannel{a, b1, c} {
 		csdb, ok := tc.channel.State().Db.(*channeldb.ChannelStateDB)
 		if !ok {
@@ -984,6 +1135,7 @@ func verifC08Cluster(t *testing.T, capSat btcutil.Amount) (*clusterChannels, [4]
 	for end, tc := range tcs {
 		tc.channel.State().Db = stores.cdb[verifC08NodeOfEnd[end]].ChannelStateDB()
 		stores.pts[end] = tc.channel.ChannelPoint()
+		stores.applyLimits(end, tc.channel.State())
 	}
 	stores.chanOpts = []lnwallet.ChannelOpt{
 		lnwallet.WithLeafStore(&lnwallet.MockAuxLeafStore{}),
@@ -1009,8 +1161,8 @@ func verifC08Cluster(t *testing.T, capSat btcutil.Amount) (*clusterChannels, [4]
 		bobToCarol: b2.channel, carolToBob: c.channel}, tcs, stores, nil
 }
 
-func verifC08Start(t *testing.T, vc *verifCtx, r *verifRng, capSat btcutil.Amount) (*verifC08Net, error) {
-	channels, tcs, stores, err := verifC08Cluster(t, capSat)
+func verifC08Start(t *testing.T, vc *verifCtx, r *verifRng, capSat btcutil.Amount, sat *verifC08Sat) (*verifC08Net, error) {
+	channels, tcs, stores, err := verifC08Cluster(t, capSat, sat)
 	if err != nil {
 		return nil, err
 	}
@@ -1038,6 +1190,9 @@ func verifC08Start(t *testing.T, vc *verifCtx, r *verifRng, capSat btcutil.Amoun
 		downResolved: map[lntypes.Hash]string{},
 		upSeen:       map[verifC08Key]map[string]int{},
 		upSeenEpoch:  map[verifC08Key]map[int]int{},
+		inAddSeq:     map[lntypes.Hash]int64{},
+		upResSeq:     map[lntypes.Hash]int64{},
+		upResEpoch:   map[lntypes.Hash]int{},
 	}
 	// Bob's on-disk channel state, read from his CURRENT database (it is
 	// replaced by a power loss while no interceptor runs)
@@ -1060,10 +1215,29 @@ func verifC08Start(t *testing.T, vc *verifCtx, r *verifRng, capSat btcutil.Amoun
 		l.cfg.FwrdingPolicy.FeeRate = 1000
 	}
 	v.install(t)
+	verifC08CountFailAdds(vc, v.n)
 	if err := v.startNet(); err != nil {
 		return nil, err
 	}
 	return v, nil
+}
+
+// verifC08CountFailAdds counts the adds the forwarder's LINKS reject (counter
+// link_level_add_rejects) without touching lnd's code: an add that a link
+// cannot put on its commitment (or that expires in the mailbox) is failed by
+// the link's mailbox (FailAdd), which asks the switch for the failure message,
+// and the switch builds it from the channel update it fetches through its
+// Config.FetchLastChannelUpdate callback. Failures decided by the switch or by
+// the incoming link take the links' own callback. (The only other caller of the
+// switch's callback is the fallback for adds left half-added by a circuit-map
+// write error.) Observability counter only, never a verdict.
+func verifC08CountFailAdds(vc *verifCtx, n *threeHopNetwork) {
+	cfg := n.bobServer.htlcSwitch.cfg
+	orig := cfg.FetchLastChannelUpdate
+	cfg.FetchLastChannelUpdate = func(scid lnwire.ShortChannelID) (*lnwire.ChannelUpdate1, error) {
+		vc.Count("link_level_add_rejects", 1)
+		return orig(scid)
+	}
 }
 
 // restart stops the whole cluster (all in-flight messages are lost) and boots
@@ -1121,6 +1295,7 @@ func (v *verifC08Net) reboot(t *testing.T, keepDown int, snap *verifC08PLSnap, v
 	v.n = n
 	v.down = [2]bool{}
 	v.install(t)
+	verifC08CountFailAdds(v.mon.vc, n)
 	if keepDown >= 0 {
 		chanID := v.mon.chanAB
 		other := n.aliceServer
@@ -1347,7 +1522,6 @@ func (v *verifC08Net) server(name byte) *mockServer {
 }
 
 func (v *verifC08Net) genPayment(r *verifRng, idx int) (*verifC08Pay, error) {
-	n := v.n
 	p := &verifC08Pay{Idx: idx}
 	p.Dir = []string{"AC", "AC", "CA", "CA", "AB", "CB"}[r.Intn(6)]
 	p.Kind = []string{"valid", "valid", "valid", "valid", "unknown", "underpaid", "lowfee", "lowcltv", "hold", "hold"}[r.Intn(10)]
@@ -1366,6 +1540,14 @@ func (v *verifC08Net) genPayment(r *verifRng, idx int) (*verifC08Pay, error) {
 	// and the 5 sat min_htlc, plus mid-range.
 	sat := []int64{5, 6, 199, 200, 201, 1299, 1300, 1301, 5000, 100000, 3000000}[r.Intn(11)]
 	p.Amt = lnwire.MilliSatoshi(sat*1000 + int64(r.Intn(2))*int64(r.Intn(1000)))
+	return v.buildPayment(r, p)
+}
+
+// buildPayment makes the onion, the invoice (added to the receiver's current
+// registry) and the attempt id of a payment whose Dir, Kind, Amt (and hold
+// attributes) are chosen.
+func (v *verifC08Net) buildPayment(r *verifRng, p *verifC08Pay) (*verifC08Pay, error) {
+	n := v.n
 	var path []*channelLink
 	switch p.Dir {
 	case "AC":
@@ -1457,6 +1639,45 @@ func (v *verifC08Net) send(p *verifC08Pay, wg *sync.WaitGroup) {
 		}
 		v.awaitResult(p, resultChan, rerr, ep)
 	}()
+}
+
+// retry makes a new attempt (new attempt id) at the invoice of p, as a sender
+// does whose first attempt came back with a temporary failure.
+func (p *verifC08Pay) retry(pid uint64) *verifC08Pay {
+	htlc := *p.htlc // the link that takes the add writes its channel and HTLC id into it
+	q := &verifC08Pay{Idx: p.Idx, Dir: p.Dir, Kind: p.Kind, HoldSettle: p.HoldSettle, HoldDelay: p.HoldDelay,
+		Amt: p.Amt, HtlcAmt: p.HtlcAmt, Fee: p.Fee, Hash: p.Hash, Preimage: p.Preimage, Pid: pid,
+		htlc: &htlc, firstHop: p.firstHop, Sat: "retry"}
+	p.retries = append(p.retries, q)
+	return q
+}
+
+// result is the outcome of the payment over all its attempts: success if one
+// succeeded; failed if every attempt has a terminal failure (or was never
+// sent); otherwise no result.
+func (p *verifC08Pay) result() (string, string) {
+	outcome, errStr := "", ""
+	missing := false
+	for _, q := range append([]*verifC08Pay{p}, p.retries...) {
+		q.mu.Lock()
+		oc, es := q.outcome, q.errStr
+		q.mu.Unlock()
+		switch oc {
+		case "success", "badpreimage":
+			return oc, es
+		case "":
+			missing = true
+			if errStr == "" {
+				errStr = es
+			}
+		default:
+			outcome, errStr = oc, es
+		}
+	}
+	if missing {
+		return "", errStr
+	}
+	return outcome, errStr
 }
 
 func (v *verifC08Net) await(p *verifC08Pay) {
@@ -1748,6 +1969,143 @@ func (v *verifC08Net) waitIdle(stablePolls int, watchdog time.Duration) (verifC0
 	return last, false
 }
 
+// saturate runs the saturation phase (see verifC08Sat) on the freshly started
+// cluster and returns its payments (fillers, then burst).
+func (v *verifC08Net) saturate(t *testing.T, vc *verifCtx, rs *verifRng, sat *verifC08Sat, caseNo, firstIdx int,
+	wg *sync.WaitGroup) ([]*verifC08Pay, error) {
+
+	vc.Count("sat_cases", 1)
+	vc.Count("sat_cases_"+sat.Mode, 1)
+	ctx := context.Background()
+	var out []*verifC08Pay
+	mk := func(kind, role string, amtSat int64) (*verifC08Pay, error) {
+		p := &verifC08Pay{Idx: firstIdx + len(out), Dir: sat.Dir, Kind: kind, Sat: role,
+			Amt: lnwire.MilliSatoshi(amtSat * 1000)}
+		if kind == "hold" {
+			p.HoldSettle, p.HoldDelay = rs.Bool(), time.Duration(rs.Intn(100))*time.Millisecond
+		}
+		if _, err := v.buildPayment(rs, p); err != nil {
+			return nil, err
+		}
+		out = append(out, p)
+		v.mon.mu.Lock()
+		v.mon.byHash[p.Hash] = p
+		v.mon.mu.Unlock()
+		return p, nil
+	}
+	outcomeOf := func(p *verifC08Pay) string {
+		p.mu.Lock()
+		defer p.mu.Unlock()
+		return p.outcome
+	}
+	poll := func(what string, done func() bool) error {
+		deadline := time.Now().Add(90 * time.Second)
+		for !done() {
+			if time.Now().After(deadline) {
+				return fmt.Errorf("%s: not within 90 s (inconclusive)", what)
+			}
+			time.Sleep(10 * time.Millisecond)
+		}
+		return nil
+	}
+	reg := v.server(sat.Dir[1]).registry
+	accepted := func(p *verifC08Pay) bool {
+		inv, err := reg.LookupInvoice(ctx, p.Hash)
+		return err == nil && inv.State == invoices.ContractAccepted
+	}
+	// 1. hold-invoice payments take the limit up
+	var fillers, burst []*verifC08Pay
+	for k := 0; k < sat.Fillers; k++ {
+		p, err := mk("hold", "filler", sat.FillSat)
+		if err != nil {
+			return nil, err
+		}
+		fillers = append(fillers, p)
+		vc.Count("hold_payments", 1)
+		v.send(p, wg)
+	}
+	err := poll("fillers held or failed", func() bool {
+		for _, p := range fillers {
+			if !accepted(p) && outcomeOf(p) == "" {
+				return false
+			}
+		}
+		return true
+	})
+	if err != nil {
+		return nil, err
+	}
+	held := 0
+	for _, p := range fillers {
+		if accepted(p) {
+			held++
+		}
+	}
+	vc.Count("sat_fillers_held", int64(held))
+	// 2. further payments: fine for Bob's switch, refused by his outgoing link
+	for k := 0; k < sat.Burst; k++ {
+		p, err := mk("valid", "burst", []int64{5000, 5000, 20000, 100000}[rs.Intn(4)])
+		if err != nil {
+			return nil, err
+		}
+		burst = append(burst, p)
+		v.send(p, wg)
+	}
+	vc.Count("sat_burst_payments", int64(len(burst)))
+	err = poll("burst payments resolved", func() bool {
+		for _, p := range burst {
+			if outcomeOf(p) == "" {
+				return false
+			}
+		}
+		return true
+	})
+	if err != nil {
+		return nil, err
+	}
+	// what was rejected: the sender has a failure, the add reached Bob and Bob
+	// never offered an add for the hash on the outgoing channel
+	v.mon.mu.Lock()
+	offered := map[lntypes.Hash]bool{}
+	for _, h := range v.mon.bobOutAdds {
+		offered[h] = true
+	}
+	reached := verifC08CloneMap(v.mon.everAtBob)
+	v.mon.mu.Unlock()
+	for _, p := range out {
+		if outcomeOf(p) == "fail" && reached[p.Hash] && !offered[p.Hash] {
+			p.satRejected = true
+			vc.Count("sat_rejected_first_attempts", 1)
+			if p.Sat == "burst" {
+				vc.Count("sat_burst_rejected", 1)
+			}
+		}
+	}
+	// 3. the receiver settles / cancels what it holds: the limit is free again
+	for _, p := range fillers {
+		if !accepted(p) {
+			continue
+		}
+		var err error
+		if p.HoldSettle {
+			err = reg.SettleHodlInvoice(ctx, p.Preimage)
+			vc.Count("hold_settled", 1)
+		} else {
+			err = reg.CancelInvoice(ctx, p.Hash)
+			vc.Count("hold_cancelled", 1)
+		}
+		if err != nil {
+			vc.Count("hold_resolve_error", 1)
+		}
+	}
+	if sat.WaitIdle {
+		if st, idle := v.waitIdle(20, 120*time.Second); !idle {
+			return nil, fmt.Errorf("network never became stable after the saturation phase (inconclusive): %+v", st)
+		}
+	}
+	return out, nil
+}
+
 func verifC08Case(t *testing.T, vc *verifCtx, i int) {
 	r := vc.Rng(i)
 	nPay := 5 + r.Intn(16)
@@ -1801,16 +2159,61 @@ func verifC08Case(t *testing.T, vc *verifCtx, i int) {
 	if os.Getenv("VERIF_C08_PL_MAX") == "1" {
 		plBurst = 1
 	}
+	// Saturation (one case in four, never a Byzantine one; choices from a
+	// stream of their own): see verifC08Sat. The fault plan must restart the
+	// forwarder's INCOMING link of the saturated direction at least once
+	// after the rejections (a flap or held down of that channel, a cluster
+	// restart, a power loss); when the plan has no such fault one is added.
+	rs := vc.Rng(i).Fork("c08-saturation")
+	var sat *verifC08Sat
+	satOn := rs.Intn(4) == 0
+	if ov := os.Getenv("VERIF_C08_SAT"); ov != "" { // debugging aid: "1" always, "0" never
+		satOn = ov == "1"
+	}
+	if satOn && !byz {
+		sat = &verifC08Sat{Dir: []string{"AC", "CA"}[rs.Intn(2)], Mode: []string{"slots", "slots", "amount"}[rs.Intn(3)],
+			Burst: 2 + rs.Intn(5), WaitIdle: rs.Intn(4) != 0}
+		if sat.Mode == "slots" {
+			sat.Slots = uint16(3 + rs.Intn(6))
+			sat.Fillers = int(sat.Slots) + rs.Intn(3)
+			sat.FillSat = []int64{150, 1000, 20000}[rs.Intn(3)] // also dust: trimmed HTLCs take a slot as well
+		} else {
+			sat.Fillers = 2 + rs.Intn(4)
+			sat.FillSat = []int64{50000, 100000, 200000}[rs.Intn(3)]
+			// room for exactly the fillers, and for nothing a burst payment (>= 5000 sat) needs
+			sat.MaxPending = lnwire.MilliSatoshi((int64(sat.Fillers)*sat.FillSat + 2000) * 1000)
+		}
+		in := "AB"
+		if sat.Dir == "CA" {
+			in = "BC"
+		}
+		restartsIncoming := false
+		for _, op := range plan {
+			if op[0] == 'R' || op == "P" || op == "f"+in || op == "d"+in {
+				restartsIncoming = true
+			}
+		}
+		if !restartsIncoming {
+			op := []string{"R", "f" + in, "f" + in, "d" + in}[rs.Intn(4)]
+			if op == "R" {
+				nRestarts++
+			} else {
+				nFlaps++
+			}
+			at := rs.Intn(len(plan) + 1)
+			plan = append(plan[:at:at], append([]string{op}, plan[at:]...)...)
+		}
+	}
 	if ov := os.Getenv("VERIF_C08_PLAN"); ov != "" { // debugging aid
 		plan = strings.Split(ov, ",")
 		byz = ov == "byz"
 		if byz {
-			plan = nil
+			plan, sat = nil, nil
 		}
 	}
-	vc.Case(i, map[string]any{"payments": nPay, "faults": strings.Join(plan, ","), "byzantine": byz})
+	vc.Case(i, map[string]any{"payments": nPay, "faults": strings.Join(plan, ","), "byzantine": byz, "saturation": sat})
 	capSat := btcutil.Amount(btcutil.SatoshiPerBitcoin * 5)
-	v, err := verifC08Start(t, vc, r, capSat)
+	v, err := verifC08Start(t, vc, r, capSat, sat)
 	if err != nil {
 		verifC08Fatalf(t, "cluster start: %v", err)
 	}
@@ -1857,7 +2260,15 @@ func verifC08Case(t *testing.T, vc *verifCtx, i int) {
 			nFirst = nPay - nPay/3
 		}
 	}
-	reserve := pays[nFirst:]
+	reserve := pays[nFirst:nPay:nPay]
+	var satPays []*verifC08Pay
+	if sat != nil {
+		var err error
+		if satPays, err = v.saturate(t, vc, rs, sat, i, nPay, &wg); err != nil {
+			verifC08Fatalf(t, "case %d: saturation phase: %v", i, err)
+		}
+		pays = append(pays, satPays...)
+	}
 	waves := 1 + r.Intn(3)
 	per := (nPay + waves - 1) / waves
 	k := 0
@@ -2127,6 +2538,41 @@ func verifC08Case(t *testing.T, vc *verifCtx, i int) {
 			vc.Count("link_flaps", 1)
 		}
 	}
+	if sat != nil {
+		// The sender pays the invoices whose first attempt was rejected once
+		// more (two in three of them), and the saturated direction gets some
+		// new payments. All faults are over, so these attempts have nothing
+		// to be re-queried after.
+		for _, p := range satPays {
+			p.mu.Lock()
+			failed := p.satRejected && p.outcome == "fail"
+			p.mu.Unlock()
+			if failed && rs.Intn(3) != 0 {
+				v.send(p.retry(rs.U64()), &wg)
+				vc.Count("sat_retries", 1)
+			}
+		}
+		for k, more := 0, 1+rs.Intn(4); k < more; k++ {
+			p := &verifC08Pay{Idx: len(pays), Dir: sat.Dir, Kind: []string{"valid", "valid", "hold"}[rs.Intn(3)], Sat: "after"}
+			p.Amt = lnwire.MilliSatoshi([]int64{201, 1301, 5000, 100000}[rs.Intn(4)] * 1000)
+			if p.Kind == "hold" {
+				p.HoldSettle, p.HoldDelay = rs.Bool(), time.Duration(rs.Intn(200))*time.Millisecond
+			}
+			if _, err := v.buildPayment(rs, p); err != nil {
+				verifC08Fatalf(t, "genPayment: %v", err)
+			}
+			pays = append(pays, p)
+			v.mon.mu.Lock()
+			v.mon.byHash[p.Hash] = p
+			v.mon.mu.Unlock()
+			if p.Kind == "hold" {
+				vc.Count("hold_payments", 1)
+				holdWg.Add(1)
+				go v.holder(p, v.server(p.Dir[1]).registry, holdStop, holdAbort, &holdWg, vc)
+			}
+			v.send(p, &wg)
+		}
+	}
 	// every fault is injected: let the network become stable with the
 	// remaining hold invoices still held, then resolve those as well.
 	if st0, idle := v.waitIdle(20, 120*time.Second); !idle {
@@ -2156,8 +2602,15 @@ func verifC08Case(t *testing.T, vc *verifCtx, i int) {
 	wit := func() any {
 		var ps []map[string]any
 		for _, p := range pays {
-			ps = append(ps, map[string]any{"idx": p.Idx, "dir": p.Dir, "kind": p.Kind, "amt": p.Amt,
-				"fee": p.Fee, "outcome": p.outcome, "err": p.errStr})
+			e := map[string]any{"idx": p.Idx, "dir": p.Dir, "kind": p.Kind, "amt": p.Amt,
+				"fee": p.Fee, "outcome": p.outcome, "err": p.errStr, "hash": fmt.Sprintf("%x", p.Hash[:4])}
+			if p.Sat != "" {
+				e["saturation"] = p.Sat
+			}
+			for _, q := range p.retries {
+				e["retry_outcome"], e["retry_err"] = q.outcome, q.errStr
+			}
+			ps = append(ps, e)
 		}
 		v.mon.mu.Lock()
 		defer v.mon.mu.Unlock()
@@ -2180,9 +2633,7 @@ func verifC08Case(t *testing.T, vc *verifCtx, i int) {
 	var delta [4]int64 // alice(A-B), bob(A-B), bob(B-C), carol(B-C)
 	okCount := 0
 	for _, p := range pays {
-		p.mu.Lock()
-		outcome := p.outcome
-		p.mu.Unlock()
+		outcome, errStr := p.result()
 		settled := false
 		if p.Kind != "unknown" {
 			inv, err := v.server(p.Dir[1]).registry.LookupInvoice(context.Background(), p.Hash)
@@ -2208,7 +2659,7 @@ func verifC08Case(t *testing.T, vc *verifCtx, i int) {
 		case "fail", "notsent":
 			if settled {
 				vc.Violation("result_matches_invoice", "failed-but-settled",
-					fmt.Sprintf("payment %d (%s %s) reported %s (%s) but the receiver's invoice is settled", p.Idx, p.Dir, p.Kind, outcome, p.errStr), wit())
+					fmt.Sprintf("payment %d (%s %s) reported %s (%s) in all %d attempts but the receiver's invoice is settled", p.Idx, p.Dir, p.Kind, outcome, errStr, 1+len(p.retries)), wit())
 			}
 		case "badpreimage":
 			vc.Violation("result_matches_invoice", "wrong-preimage",
@@ -2232,7 +2683,7 @@ func verifC08Case(t *testing.T, vc *verifCtx, i int) {
 				// says nothing about the sender's bookkeeping:
 				// diagnostic; the money side is judged by the
 				// conservation oracle below.
-				vc.Diag("sender_result_missing", fmt.Sprintf("payment %d (%s %s): %s", p.Idx, p.Dir, p.Kind, p.errStr))
+				vc.Diag("sender_result_missing", fmt.Sprintf("payment %d (%s %s): %s", p.Idx, p.Dir, p.Kind, errStr))
 				if settled {
 					vc.Violation("result_matches_invoice", "no-result-but-settled",
 						fmt.Sprintf("payment %d has no result at the sender but its invoice is settled", p.Idx), wit())
@@ -2287,7 +2738,18 @@ func verifC08Case(t *testing.T, vc *verifCtx, i int) {
 	for _, p := range pays {
 		kinds[p.Dir+p.Kind+p.outcome] = true
 	}
-	vc.Sig(fmt.Sprint(nRestarts, nFlaps, plKind, len(kinds), verifMin(okCount, 6), v.delayPct))
+	satSig := ""
+	if sat != nil {
+		satSig = sat.Dir + sat.Mode
+		for _, p := range satPays {
+			for _, q := range p.retries {
+				if oc, _ := q.result(); oc == "success" {
+					vc.Count("sat_retries_succeeded", 1)
+				}
+			}
+		}
+	}
+	vc.Sig(fmt.Sprint(nRestarts, nFlaps, plKind, len(kinds), verifMin(okCount, 6), v.delayPct, satSig))
 	if i%10 == 0 {
 		vc.Sample(wit())
 	}
